@@ -22,8 +22,11 @@ pub fn run(args: &Args) {
     let rt = runtime();
     rt.block_on(async {
         let sim = Sim::start().await;
-        let base = Utc.with_ymd_and_hms(2024, 1, 1, 0, 0, 0).single().expect("base");
-        for (p, k) in shapes {
+        let past = Utc.with_ymd_and_hms(2024, 1, 1, 0, 0, 0).single().expect("base");
+        for (n_shape, (p, k)) in shapes.into_iter().enumerate() {
+            // every fifth bucket is stamped AHEAD of this machine's clock (uploader clock ahead / caller clock slow):
+            // "most recently uploaded" does not depend on the caller's clock
+            let base = if n_shape % 5 == 4 { Utc::now() + Duration::days(2) - Duration::minutes(1000) } else { past };
             sim.clear();
             // real bucket content: one first chunk per populated directory; directory v (1..=999) is index v-1,
             // rank r uploaded at base + r minutes.  Listing uses the simulator's genuine prefix semantics.
